@@ -43,26 +43,31 @@ type Step struct {
 type Case struct {
 	Codec      string `json:"codec"`
 	Steps      []Step `json:"steps"`
-	Goroutines int    `json:"goroutines"` // >1: the same history runs concurrently on the same codec value
+	Goroutines int    `json:"goroutines"`      // >1: the same history runs concurrently on the same codec value
+	Level      int    `json:"level,omitempty"` // 0: the package-level configuration; 1-3: other levels of the codec
 }
 
 // newCodec returns a fresh codec value configured like the package-level one:
 // its pools start empty, so a case's history is the whole history of the
 // pooled compressors/decompressors and failures replay deterministically.
-func newCodec(name string) compress.Codec {
+func newCodec(name string) compress.Codec { return newCodecLevel(name, 0) }
+
+// newCodecLevel: level 0 is the configuration of the package-level codec, 1-3 are
+// other documented levels of the same codec (the fastest, a middle one, the densest).
+func newCodecLevel(name string, level int) compress.Codec {
 	switch name {
 	case "uncompressed":
 		return &uncompressed.Codec{}
 	case "snappy":
 		return &snappy.Codec{}
 	case "gzip":
-		return &gzip.Codec{Level: parquet.Gzip.Level}
+		return &gzip.Codec{Level: []int{parquet.Gzip.Level, 1, 6, 9}[level%4]}
 	case "brotli":
-		return &brotli.Codec{Quality: parquet.Brotli.Quality, LGWin: parquet.Brotli.LGWin}
+		return &brotli.Codec{Quality: []int{parquet.Brotli.Quality, 1, 5, 9}[level%4], LGWin: []int{parquet.Brotli.LGWin, 10, 16, 22}[level%4]}
 	case "zstd":
-		return &zstd.Codec{Level: parquet.Zstd.Level}
+		return &zstd.Codec{Level: []zstd.Level{parquet.Zstd.Level, zstd.SpeedFastest, zstd.SpeedBetterCompression, zstd.SpeedBestCompression}[level%4]}
 	case "lz4":
-		return &lz4.Codec{Level: parquet.Lz4Raw.Level}
+		return &lz4.Codec{Level: []lz4.Level{parquet.Lz4Raw.Level, lz4.Fastest, lz4.Level3, lz4.Level9}[level%4]}
 	}
 	panic("bad codec")
 }
@@ -122,7 +127,7 @@ func genCase(t *rapid.T) Case {
 	c.Codec = codecNames[rapid.IntRange(0, len(codecNames)-1).Draw(t, "codec")]
 	n := rapid.IntRange(1, 7).Draw(t, "nsteps")
 	for i := 0; i < n; i++ {
-		s := Step{Op: "roundtrip", In: genInput(t), Dst: rapid.IntRange(0, 4).Draw(t, "dst")}
+		s := Step{Op: "roundtrip", In: genInput(t), Dst: rapid.IntRange(0, 6).Draw(t, "dst")}
 		// LZ4's Decode never returns on invalid input (it doubles its buffer on every
 		// error): no failed-decode outcome exists to put in a history, see DESIGN C20.
 		if c.Codec != "lz4" && c.Codec != "uncompressed" && rapid.IntRange(0, 3).Draw(t, "bad") == 0 {
@@ -136,6 +141,7 @@ func genCase(t *rapid.T) Case {
 		c.Steps = append(c.Steps, s)
 	}
 	c.Goroutines = []int{1, 1, 1, 4, 8}[rapid.IntRange(0, 4).Draw(t, "g")]
+	c.Level = []int{0, 0, 1, 2, 3}[rapid.IntRange(0, 4).Draw(t, "level")]
 	return c
 }
 
@@ -143,6 +149,10 @@ var codecIDs = map[string]int{"uncompressed": ref.CodecNone, "snappy": ref.Codec
 
 func pickDst(kind, need int, prev []byte) []byte {
 	switch kind {
+	case 5: // a buffer a little larger than the data (a page buffer reused for the next page)
+		return make([]byte, 0, need+1+need/300)
+	case 6:
+		return make([]byte, 0, need+17)
 	case 1:
 		return make([]byte, 0, 3)
 	case 2:
@@ -168,7 +178,11 @@ func history(c Case, codec compress.Codec, feat string) *kit.Failure {
 		orig := append([]byte{}, x...)
 		switch s.Op {
 		case "roundtrip":
-			enc, err := codec.Encode(pickDst(s.Dst, len(x)/2+64, prevEnc), x)
+			encNeed := len(x)/2 + 64
+			if s.Dst >= 5 {
+				encNeed = len(x) // capacity just above the input size: below the worst-case bound of most codecs
+			}
+			enc, err := codec.Encode(pickDst(s.Dst, encNeed, prevEnc), x)
 			if err != nil {
 				return kit.Failf("c20/encode-error"+feat, "step %d: Encode of %d bytes: %v", si, len(x), err)
 			}
@@ -233,8 +247,9 @@ func history(c Case, codec compress.Codec, feat string) *kit.Failure {
 }
 
 func runCase(c Case, o *kit.Obs) *kit.Failure {
-	codec := newCodec(c.Codec)
+	codec := newCodecLevel(c.Codec, c.Level)
 	feat := fmt.Sprintf("{codec=%s}", c.Codec)
+	o.Class(fmt.Sprintf("level-%d", c.Level))
 	hasBad, alias := false, false
 	for i, s := range c.Steps {
 		if s.Op == "baddecode" && i+1 < len(c.Steps) {
